@@ -35,10 +35,13 @@ impl Command for CommandImpl {
             match context.arguments[0].parse() {
                 Ok(min) => match context.arguments[1].parse() {
                     Ok(max) => {
-                        if min > max {
+                        if min >= max {
                             CommandResult::Error(
-                                format!("Min value: {} bigger than max value: {}", min, max)
-                                    .to_string(),
+                                format!(
+                                    "Min value: {} must be smaller than max value: {}",
+                                    min, max
+                                )
+                                .to_string(),
                             )
                         } else {
                             let mut rng_inst = rng();
